@@ -340,6 +340,34 @@ def r6_fresh_policy(ctx) -> None:
   ps = ctx.index.need_class('vizier._src.service.pythia_service.PythiaServicer')
   per_request = all(any((dotted(c.func) or '') == 'self._policy_factory' for c in flow.calls_in(ps.methods[n].node))
                     for n in ('Suggest', 'EarlyStop'))
+  # the servicer keeps nothing either: no store into its own attributes while serving, and the policy that is asked
+  # comes from the factory call of this request on every path
+  kept = None
+  for n in ('Suggest', 'EarlyStop'):
+    m = ps.methods[n]
+    for x in ast.walk(m.node):
+      tg = x.targets if isinstance(x, ast.Assign) else [x.target] if isinstance(x, (ast.AugAssign, ast.AnnAssign)) else []
+      for t in tg:
+        if flow.root_name(t) == 'self' and not isinstance(t, ast.Name):
+          kept = kept or (m, x)
+      if isinstance(x, ast.Call) and isinstance(x.func, ast.Attribute) and flow.root_name(x.func.value) == 'self' \
+          and x.func.attr in ('setdefault', 'append', 'add', 'update', 'move_to_end', 'popitem', 'pop', 'insert', 'extend') \
+          and not isinstance(x.func.value, ast.Name):
+        kept = kept or (m, x)
+    g_ = cfgmod.CFG(m.node)
+    rd_ = flow.ReachingDefs(g_)
+    for node_ in g_.nodes:
+      for c in flow.node_calls(node_):
+        if isinstance(c.func, ast.Attribute) and c.func.attr in ('suggest', 'early_stop') and isinstance(c.func.value, ast.Name):
+          for d in rd_.at(node_, c.func.value.id):
+            v = d.value
+            if not (isinstance(v, ast.Call) and (dotted(v.func) or '') == 'self._policy_factory'):
+              kept = kept or (m, g_.nodes[d.node_id].ast if d.node_id >= 0 else m.node)
+  ctx.check(kept is None, 'R6', 'PythiaServicer keeps no policy between requests', ps.node,
+            'Suggest/EarlyStop write no attribute of the servicer; the policy asked is the one the factory built for this request',
+            (f'`{unparse(kept[1], 70)}` in {kept[0].name}: a policy (with its designer and its record of delivered trials) outlives the request - '
+             'after a failed request, or after the study was deleted and re-created, it no longer receives every completed trial exactly once')
+            if kept else '', construct='servicer-state', func=ps.qualname)
   ctx.check(not stores and per_request, 'R6', 'DefaultPolicyFactory is stateless; PythiaServicer calls it per request', pf.node,
             'no attribute of the factory is written; Suggest/EarlyStop build their policy from the request',
             (f'the policy factory stores state on itself (`{unparse(stores[0][1], 70)}` in {stores[0][0].name}): a policy object (with its '
